@@ -1,4 +1,4 @@
-CONSTANTS NK = 2 KeyCls <- Cls2 KeyTyp <- Typ2 Bytes = {65, 66} L = 3 MaxEv = 7 HalfGuard = FALSE
+CONSTANTS NK = 2 KeyCls <- Cls2 KeyTyp <- Typ2 Bytes = {64, 65} L = 3 MaxEv = 7 ErrPairs <- ErrAll HalfGuard = FALSE
 SPECIFICATION Spec
 CONSTRAINT Bounded
 INVARIANTS TypeOK Delivered InBounds LengthOK NoCross CurAgree InfoOK EvOK
